@@ -75,6 +75,8 @@ type Config struct {
 	SlowSite   string // goroutines whose spawn site contains this are slow: ...
 	SlowPct    int    // ... with this probability (percent) a released step first sleeps a seeded time
 	CrashIO    int    // the simulated process dies in front of its CrashIO-th file operation (0 = never)
+	FailFileWrite  int  // the k-th file write (simrt.FileWrite) fails (0 = never)
+	FailFileSticky bool // ... and every later one too (full disk)
 	CrashSite  string // count the steps taken at yield sites whose name contains this ...
 	CrashNth   int    // ... and let the simulated process die in front of the CrashNth-th of them (0 = only count)
 }
@@ -127,6 +129,7 @@ type Sim struct {
 	uuid      atomic.Uint64
 	tmpn      atomic.Uint64
 	ioN       atomic.Int64 // file operations reached so far
+	fwN       atomic.Int64 // file writes so far
 	pend      *pendW
 	siteSteps int
 	crashSite atomic.Value // site of the file operation the injected crash preceded
